@@ -46,6 +46,7 @@ def find_core_tokens(string, root):
                 in_delimiter_run = None
                 escaped = False
             _code_matches.append(code_match)
+            in_image = False
             i = code_match.end()
             code_match = code_pattern.search(string, i)
             continue
